@@ -211,6 +211,29 @@ class DictReader:
 
         return None
 
+    def _text_content(self, attr, content, label):
+        """
+        JSON and YAML decoders return numbers, booleans, lists or mappings for
+        entries like 'name: 1' or 'type: [a, b]'. Names, types and dependencies
+        are text, as the XML reader returns them; paths and validations rely on it.
+
+        :param attr: name of the attribute.
+        :param content: the decoded content of the attribute.
+        :param label: 'Section' or 'Property'; used in the error message.
+        :returns: tuple (usable, content); a list or mapping is reported via the
+                  error method and is not usable.
+        """
+        if attr not in ("name", "type", "dependency") or content is None \
+                or isinstance(content, ("".__class__, u"".__class__)):
+            return True, content
+
+        if isinstance(content, (list, tuple, dict)):
+            msg = "%s attribute '%s' has to be a text, found '%s'" % (label, attr, content)
+            self.error(msg)
+            return False, None
+
+        return True, str(content)
+
     def error(self, msg):
         """
         If the parsers ignore_errors property is set to False, a ParserException
@@ -353,6 +376,10 @@ class DictReader:
                     if attr.endswith("_cardinality"):
                         content = parse_cardinality(content)
 
+                    usable, content = self._text_content(attr, content, "Section")
+                    if not usable:
+                        continue
+
                     # Make sure to always use the correct odml format attribute name
                     sec_attrs[odmlfmt.Section.map(attr)] = content
 
@@ -397,6 +424,10 @@ class DictReader:
                     # Now convert cardinality lists back to tuples.
                     if attr.endswith("_cardinality"):
                         content = parse_cardinality(content)
+
+                    usable, content = self._text_content(attr, content, "Property")
+                    if not usable:
+                        continue
 
                     # Make sure to always use the correct odml format attribute name
                     prop_attrs[odmlfmt.Property.map(attr)] = content
